@@ -48,26 +48,50 @@ func firstLine(s string) string {
 
 // raceSolvers runs all solvers on the script; first decisive answer wins.
 func raceSolvers(script string, dir string, name string, timeoutS int) solveResult {
+	return raceSolvers2(script, "", dir, name, timeoutS)
+}
+
+var intblast = solverSpec{"cvc5-1.0.3-intblast", func(f string, t int) []string {
+	return []string{"cvc5", "--lang=smt2", "--solve-bv-as-int=sum", fmt.Sprintf("--tlimit=%d", t*1000), f}
+}}
+
+// raceSolvers2 additionally races the quantifier-free "ground" variant of the
+// query (quantified assumptions replaced by instances; see groundScript) on
+// z3-new and on cvc5 with bit-vectors translated to integers. The ground
+// variant has fewer assumptions, so only its `unsat` answers count.
+func raceSolvers2(script, ground string, dir string, name string, timeoutS int) solveResult {
 	file := filepath.Join(dir, sanitizeFile(name)+".smt2")
 	os.WriteFile(file, []byte(script), 0o644)
 	ctx, cancel := context.WithCancel(context.Background())
 	defer cancel()
-	type res struct {
-		r solveResult
+	type job struct {
+		sp        solverSpec
+		file      string
+		unsatOnly bool
 	}
-	solvers := solvers
-	if strings.Contains(script, "(bvudiv ") || strings.Contains(script, "(bvurem ") || strings.Contains(script, "(bvmul ") || strings.Contains(script, "(bvsdiv ") || strings.Contains(script, "(bvsrem ") {
-		// non-linear bit-vector arithmetic: also try cvc5's translation of bit-vectors to integers
-		solvers = append(append([]solverSpec{}, solvers...), solverSpec{"cvc5-1.0.3-intblast", func(f string, t int) []string {
-			return []string{"cvc5", "--lang=smt2", "--solve-bv-as-int=sum", fmt.Sprintf("--tlimit=%d", t*1000), f}
-		}})
-	}
-	ch := make(chan solveResult, len(solvers))
-	start := time.Now()
+	var jobs []job
 	for _, sp := range solvers {
-		sp := sp
+		jobs = append(jobs, job{sp, file, false})
+	}
+	nonlinear := func(s string) bool {
+		return strings.Contains(s, "(bvudiv ") || strings.Contains(s, "(bvurem ") || strings.Contains(s, "(bvmul ") || strings.Contains(s, "(bvsdiv ") || strings.Contains(s, "(bvsrem ")
+	}
+	if nonlinear(script) && !strings.Contains(script, "(forall ") {
+		// non-linear bit-vector arithmetic: also try cvc5's translation of bit-vectors to integers
+		jobs = append(jobs, job{intblast, file, false})
+	}
+	if ground != "" {
+		gfile := filepath.Join(dir, sanitizeFile(name)+".ground.smt2")
+		os.WriteFile(gfile, []byte(ground), 0o644)
+		jobs = append(jobs, job{solverSpec{"z3-new-5.1.0/ground", solvers[0].argv}, gfile, true})
+		jobs = append(jobs, job{solverSpec{"cvc5-1.0.3-intblast/ground", intblast.argv}, gfile, true})
+	}
+	ch := make(chan solveResult, len(jobs))
+	start := time.Now()
+	for _, jb := range jobs {
+		jb := jb
 		go func() {
-			argv := sp.argv(file, timeoutS)
+			argv := jb.sp.argv(jb.file, timeoutS)
 			cmd := exec.CommandContext(ctx, argv[0], argv[1:]...)
 			var out bytes.Buffer
 			cmd.Stdout = &out
@@ -80,14 +104,16 @@ func raceSolvers(script string, dir string, name string, timeoutS int) solveResu
 			case "unsat":
 				st = "unsat"
 			case "sat":
-				st = "sat"
+				if !jb.unsatOnly {
+					st = "sat"
+				}
 			}
-			ch <- solveResult{status: st, solver: sp.name, seconds: time.Since(t0).Seconds(), output: o}
+			ch <- solveResult{status: st, solver: jb.sp.name, seconds: time.Since(t0).Seconds(), output: o}
 		}()
 	}
 	var outs []string
 	var satRes *solveResult
-	for i := 0; i < len(solvers); i++ {
+	for i := 0; i < len(jobs); i++ {
 		r := <-ch
 		if r.status == "unsat" {
 			cancel()
@@ -137,6 +163,101 @@ func (x *Exec) obligationScript(o *Obligation, getValues []*Term) string {
 		asserts = append(asserts, inst...)
 	}
 	return c.Script(asserts, ScriptOpts{ProduceModels: len(getValues) > 0, GetValues: getValues})
+}
+
+// groundScript: the quantifier-free variant of an obligation's query. Every
+// universally quantified assumption is replaced by its instances at ground
+// terms of the right sort that occur in the goal and in the other
+// assumptions (array indices first). Dropping or weakening assumptions is
+// sound: an `unsat` answer for this variant discharges the obligation.
+func (x *Exec) groundScript(o *Obligation) string {
+	c := x.c
+	goal := c.skolemize(o.Cond)
+	if goal.hasQ || o.Guard.hasQ {
+		return ""
+	}
+	var ground, quant []*Term
+	for _, a := range o.Assums[:o.NAssum] {
+		if a.hasQ {
+			quant = append(quant, a)
+		} else {
+			ground = append(ground, a)
+		}
+	}
+	if len(quant) == 0 {
+		return ""
+	}
+	base := append(append([]*Term{}, ground...), goal, o.Guard)
+	pool := c.instPool(base, 48)
+	asserts := append([]*Term{}, ground...)
+	for round := 0; round < 2; round++ {
+		var inst []*Term
+		for _, q := range quant {
+			for _, t := range c.instances(q, pool) {
+				if !t.hasQ {
+					inst = append(inst, t)
+				}
+			}
+		}
+		if round == 0 {
+			// second round: terms introduced by the first instances (e.g. a frame axiom's other memory)
+			pool = c.instPool(append(append([]*Term{}, base...), inst...), 64)
+			continue
+		}
+		asserts = append(asserts, inst...)
+	}
+	asserts = append(asserts, o.Guard, c.Not(goal))
+	return c.Script(asserts, ScriptOpts{})
+}
+
+// instPool: candidate instantiation terms by sort: indices of array reads
+// (select) first, then other small closed terms.
+func (c *Ctx) instPool(ts []*Term, n int) map[string][]*Term {
+	seen := map[*Term]bool{}
+	prio := map[string][]*Term{}
+	rest := map[string][]*Term{}
+	inPrio := map[*Term]bool{}
+	var walk func(t *Term)
+	walk = func(t *Term) {
+		if seen[t] || t.hasQ {
+			return
+		}
+		seen[t] = true
+		for _, a := range t.args {
+			walk(a)
+		}
+		if t.op == "select" && !t.args[1].open && !t.args[1].isLit() && !inPrio[t.args[1]] {
+			inPrio[t.args[1]] = true
+			prio[t.args[1].sort] = append(prio[t.args[1].sort], t.args[1])
+		}
+		if !t.open && !t.isLit() && (bvWidth(t.sort) == 64 || t.sort == SRef || t.sort == "Addr") {
+			rest[t.sort] = append(rest[t.sort], t)
+		}
+	}
+	for _, t := range ts {
+		walk(t)
+	}
+	out := map[string][]*Term{}
+	for s, l := range prio {
+		out[s] = l
+	}
+	for s, l := range rest {
+		sort.SliceStable(l, func(i, j int) bool { return termSize(l[i], 10) < termSize(l[j], 10) })
+		for _, t := range l {
+			if len(out[s]) >= n {
+				break
+			}
+			if !inPrio[t] {
+				out[s] = append(out[s], t)
+			}
+		}
+	}
+	for s, l := range out {
+		if len(l) > n {
+			out[s] = l[:n]
+		}
+	}
+	return out
 }
 
 func hasQuantifier(ts []*Term) bool {
@@ -301,6 +422,7 @@ func (x *Exec) dischargeAll(obls []*Obligation, dir string, timeoutS int, par in
 	os.MkdirAll(dir, 0o755)
 	// scripts are generated sequentially (term table is not thread-safe)
 	scripts := make([]string, len(obls))
+	grounds := make([]string, len(obls))
 	for i, o := range obls {
 		if o.Status == "skipped" {
 			continue
@@ -312,6 +434,9 @@ func (x *Exec) dischargeAll(obls []*Obligation, dir string, timeoutS int, par in
 		}
 		scripts[i] = x.obligationScript(o, nil)
 		o.SMTBytes = len(scripts[i])
+		if k := o.Kind; !(k == "nil" || k == "bounds" || k == "div" || k == "shift" || k == "typeassert") {
+			grounds[i] = x.groundScript(o)
+		}
 	}
 	sem := make(chan struct{}, par)
 	var wg sync.WaitGroup
@@ -379,7 +504,7 @@ func (x *Exec) dischargeAll(obls []*Obligation, dir string, timeoutS int, par in
 		go func() {
 			defer wg.Done()
 			defer func() { <-sem }()
-			r := raceSolvers(scripts[i], dir, o.Name, timeoutS)
+			r := raceSolvers2(scripts[i], grounds[i], dir, o.Name, timeoutS)
 			o.Solver = r.solver
 			o.Seconds = r.seconds
 			o.Output = r.output
